@@ -89,6 +89,28 @@ type Router struct {
 	CanonHash   func(ns *native.NativeService, chain uint64, height uint64) (string, error) // "" = no entry
 }
 
+// posaExtraInfo is the side chain's ExtraInfo for the parlia / congress routers. The member Epoch is not known to the
+// routers as they are (unknown JSON members are ignored); it is there so that a router patched to check the height
+// of list-carrying headers (proposed fix of the C29 finding) can be driven by the same harness.
+func posaExtraInfo(chainID int64, period, epoch uint64) []byte {
+	return mustJSON(map[string]any{"ChainID": chainID, "Period": period, "Epoch": epoch})
+}
+
+// WithEpoch returns a copy of the router whose ExtraInfo announces the given epoch length (parlia / congress only).
+func (rt *Router) WithEpoch(epoch uint64) *Router {
+	c := *rt
+	if rt.Family == Parlia || rt.Family == Congress {
+		id := int64(0)
+		if rt.SealChainID != nil {
+			id = rt.SealChainID.Int64()
+		} else {
+			id = map[string]int64{"heco": 128, "hsc": 70, "pixiechain": 6626}[rt.Name]
+		}
+		c.ExtraInfo = posaExtraInfo(id, rt.Period, epoch)
+	}
+	return &c
+}
+
 func mustJSON(v any) []byte {
 	b, err := json.Marshal(v)
 	if err != nil {
@@ -102,7 +124,7 @@ func Routers(epoch, sprint uint64) []*Router {
 	hx := func(h ecommon.Hash) string { return ecommon.Bytes2Hex(h[:]) }
 	return []*Router{
 		{Name: "bsc", ID: utils.BSC_ROUTER, Family: Parlia, SealChainID: big.NewInt(56), GasDiv: 256, GasUsedRule: true, TypesHeader: true,
-			ExtraInfo:   mustJSON(bsc.ExtraInfo{ChainID: big.NewInt(56)}),
+			ExtraInfo:   posaExtraInfo(56, 0, epoch),
 			CanonHeight: bsc.GetCanonicalHeight,
 			CanonHash: func(ns *native.NativeService, c, h uint64) (string, error) {
 				x, err := bsc.GetCanonicalHeader(ns, c, h)
@@ -112,7 +134,7 @@ func Routers(epoch, sprint uint64) []*Router {
 				return hx(x.Header.Hash()), nil
 			}},
 		{Name: "bytom", ID: utils.BYTOM_ROUTER, Family: Parlia, SealChainID: big.NewInt(188), GasDiv: 256, GasUsedRule: true, TypesHeader: true,
-			ExtraInfo:   mustJSON(bytom.ExtraInfo{ChainID: big.NewInt(188)}),
+			ExtraInfo:   posaExtraInfo(188, 0, epoch),
 			CanonHeight: bytom.GetCanonicalHeight,
 			CanonHash: func(ns *native.NativeService, c, h uint64) (string, error) {
 				x, err := bytom.GetCanonicalHeader(ns, c, h)
@@ -122,7 +144,7 @@ func Routers(epoch, sprint uint64) []*Router {
 				return hx(x.Header.Hash()), nil
 			}},
 		{Name: "heco", ID: utils.HECO_ROUTER, Family: Congress, Period: 3, GasDiv: 1024, GasUsedRule: true,
-			ExtraInfo:   mustJSON(heco.ExtraInfo{ChainID: big.NewInt(128), Period: 3}),
+			ExtraInfo:   posaExtraInfo(128, 3, epoch),
 			CanonHeight: heco.GetCanonicalHeight,
 			CanonHash: func(ns *native.NativeService, c, h uint64) (string, error) {
 				x, err := heco.GetCanonicalHeader(ns, c, h)
@@ -132,7 +154,7 @@ func Routers(epoch, sprint uint64) []*Router {
 				return hx(x.Header.Hash()), nil
 			}},
 		{Name: "hsc", ID: utils.HSC_ROUTER, Family: Congress, Period: 3, GasUsedRule: true,
-			ExtraInfo:   mustJSON(hsc.ExtraInfo{ChainID: big.NewInt(70), Period: 3}),
+			ExtraInfo:   posaExtraInfo(70, 3, epoch),
 			CanonHeight: hsc.GetCanonicalHeight,
 			CanonHash: func(ns *native.NativeService, c, h uint64) (string, error) {
 				x, err := hsc.GetCanonicalHeader(ns, c, h)
@@ -142,7 +164,7 @@ func Routers(epoch, sprint uint64) []*Router {
 				return hx(x.Header.Hash()), nil
 			}},
 		{Name: "pixiechain", ID: utils.PIXIECHAIN_ROUTER, Family: Congress, Period: 3, GasDiv: 1024, GasUsedRule: true,
-			ExtraInfo:   mustJSON(pixiechain.ExtraInfo{ChainID: big.NewInt(6626), Period: 3}),
+			ExtraInfo:   posaExtraInfo(6626, 3, epoch),
 			CanonHeight: pixiechain.GetCanonicalHeight,
 			CanonHash: func(ns *native.NativeService, c, h uint64) (string, error) {
 				x, err := pixiechain.GetCanonicalHeader(ns, c, h)
